@@ -25,8 +25,11 @@ INVARIANT EmitCase
 
 def check_maps(job):
     import oqupy
-    case, rot_kind, seed = job
-    o = np.array(case["o"], dtype=float)
+    case, rot_kind, seed = job[:3]
+    # the partition is invariant under affine maps of the eigenvalues (coincidences of differences and of sums
+    # are preserved): the same classes are demanded for a large constant offset and for small splittings
+    scale, offset = job[3] if len(job) > 3 else (1.0, 0.0)
+    o = np.array(case["o"], dtype=float) * scale + offset
     d = len(o)
     out = []
     corr = probes.make_probe_sd(probes.probe_weights(seed, 4), 0.25)
@@ -51,11 +54,13 @@ def run(ctx):
     space = "UNION {[1..d -> (-1)..2] : d \\in 2..3}" if quick else "UNION {[1..d -> (-1)..2] : d \\in 2..4}"
     r = ctx.tlc("Degeneracy", DEG_CFG, label="all eigenvalue tuples over -1..2",
                 constants={"OSpace": space, "Emit": "TRUE"}, workers=1)
-    res = core.pmap(check_maps, [(c, "id", ctx.seed) for c in r.cases], chunksize=8)
-    for c, mm in zip(r.cases, res):
-        ctx.case({"o": c["o"], "check": "degeneracy maps"}, nontrivial=c["nnorth"] < len(c["o"]) ** 2)
+    affine = [(1.0, 0.0), (1.0, 2.0e5), (0.001, 0.0), (8.0, -3.0e4)]
+    mjobs = [(c, "id", ctx.seed, ab) for c in r.cases for ab in affine]
+    res = core.pmap(check_maps, mjobs, chunksize=8)
+    for (c, _, _, ab), mm in zip(mjobs, res):
+        ctx.case({"o": c["o"], "scale_offset": list(ab), "check": "degeneracy maps"}, nontrivial=c["nnorth"] < len(c["o"]) ** 2)
         for m in mm:
-            ctx.violation("C06:maps:" + m["what"], "o=%s %s" % (c["o"], m), {"o": c["o"]})
+            ctx.violation("C06:maps:" + m["what"], "o=%s scale,offset=%s %s" % (c["o"], ab, m), {"o": c["o"], "affine": list(ab)})
 
     # replay Influence behaviours for every pattern with unique False/True
     def tup(o):
